@@ -77,7 +77,7 @@ def saturation_races(thorough):
 
 def corr_modules():
     mods = []
-    for name in ("corr_asyncbuffer", "corr_asyncbufferfine", "corr_asyncwindows", "corr_asynczip"):
+    for name in ("corr_asyncbuffer", "corr_asyncbufferfine", "corr_mapasyncfine", "corr_asyncwindows", "corr_asynczip"):
         try:
             mods.append(__import__("harness." + name, fromlist=["x"]))
         except ImportError:
@@ -93,7 +93,7 @@ def lean_extra(prop="C02"):
     out = []
     if prop == "C02":
         out.append("StreamzVerif.Props.C13")            # rate_limit / delay: order, count, nothing lost
-    for m in ("AsyncBuffer", "AsyncBufferFine", "AsyncWindows", "AsyncZip"):
+    for m in ("AsyncBuffer", "AsyncBufferFine", "MapAsyncFine", "AsyncWindows", "AsyncZip"):
         if os.path.exists(os.path.join(common.LEAN_DIR, "StreamzVerif", "Props", m + ".lean")):
             out.append(("StreamzVerif.Props." + m, pre))
     return out
